@@ -7,9 +7,10 @@ that keep the property and must not raise an alarm.
 M = []
 
 
-def mut(mid, prop, file, old, new, expect="violation", note=""):
+def mut(mid, prop, file, old, new, expect="violation", note="", more=()):
+    """more: further (file, old, new) edits of the same mutant (two cooperating sites)"""
     M.append({"id": mid, "property": prop, "file": file, "old": old, "new": new,
-              "expect": expect, "note": note})
+              "expect": expect, "note": note, "more": [list(x) for x in more]})
 
 
 MC = "cardutil/mciipm.py"
@@ -230,3 +231,26 @@ mut("c10-last-record-class-level", "C10", MC,
     "        self.last_record = record_length_raw + record  # save last record read",
     "        VbsReader.last_record = record_length_raw + record if self.record_number > 1 or VbsReader.last_record is None else VbsReader.last_record  # save last record read",
     note="first record's bytes kept on the class and not refreshed: stale context for an error in record 1 of a later file")
+
+# ---- C06 (more) -----------------------------------------------------------------------------
+mut("c06-module-scratch-bitmap", "C06", ISO,
+    "    output_data = b''\n    bitmap_values = [False] * 128\n",
+    "    output_data = b''\n    bitmap_values = globals().setdefault('_SCRATCH_BITMAP', [])\n    bitmap_values[:] = [False] * 128\n",
+    note="module-level scratch list reset at the start of each dumps: only a pre-emption between reset and use (line-level schedule, two writers) can see it")
+mut("c06-shared-unblock-pool", "C06", MC,
+    "        self.file_obj = file_obj\n        self.buffer = b''",
+    "        self.file_obj = file_obj\n        self.buffer = b''\n        self._pool = Unblock1014._POOL",
+    more=[(MC, "class Unblock1014(object):\n", "class Unblock1014(object):\n    _POOL = {}\n"),
+          (MC, "            self.buffer += block[:1012]\n        if read_all:",
+               "            self._pool['last'] = block[:1012]\n            self.buffer += self._pool['last']\n        if read_all:"),
+          (MC, "        output = self.buffer[:bytes_to_read]\n        self.buffer = self.buffer[bytes_to_read:]",
+               "        if len(self.buffer) < bytes_to_read and self._pool.get('last') is not None and len(self._pool['last']) == 1012 and self.buffer[-1012:] != self._pool['last'][-len(self.buffer[-1012:]):]:\n            self.buffer += b''\n        output = self.buffer[:bytes_to_read]\n        self.buffer = self.buffer[bytes_to_read:]")],
+    expect="clean", note="negative control: a class-level pool that is written but never influences results")
+mut("c06-config-mutated-by-reader", "C06", ISO,
+    "    field_length = bit_config['field_length']\n\n    length_size = _get_field_length(bit_config)\n\n    if length_size > 0:",
+    "    field_length = bit_config['field_length']\n\n    length_size = bit_config.get('_ls') or _get_field_length(bit_config)\n    bit_config['_ls'] = length_size\n\n    if length_size > 0:",
+    expect="clean", note="negative control: memoises a derived value inside the shared config dict; value never changes, so instances are not influenced")
+mut("c06-writer-encoding-cached-on-class", "C06", MC,
+    "        self.encoding = encoding\n        self.iso_config = iso_config\n        super(IpmWriter, self).__init__(file_obj, **kwargs)",
+    "        IpmWriter.encoding = encoding\n        self.iso_config = iso_config\n        super(IpmWriter, self).__init__(file_obj, **kwargs)",
+    note="encoding kept on the class: a writer created later changes the encoding of one created earlier (op-level: needs two IpmWriters with different encodings alive at once)")
